@@ -147,42 +147,61 @@ class SpecMixin:
         if f == "fs_text":
             p = Val.p(v(a[0]).t)
             return [Res(st, V(StrV(z3.Select(st.field("$fs_text"), p)), "str"))]
-        if f == "effect_before":     # every occurrence of effect a precedes the (single) occurrence of effect b
+        if f == "effect_before":     # no occurrence of effect a after an occurrence of effect b
             na, nb = a[0].value, a[1].value
-            pos_b = [i for i, e in enumerate(st.trace) if e.name == nb]
-            pos_a = [i for i, e in enumerate(st.trace) if e.name == na or na in e.inner]
-            if not pos_b:
-                return B(z3.BoolVal(len(pos_a) == 0))
-            return B(z3.BoolVal(all(i < pos_b[-1] for i in pos_a)))
+            bad = []
+            for ib, eb in enumerate(st.trace):
+                if eb.name != nb: continue
+                for ia, ea in enumerate(st.trace):
+                    if ia > ib and (ea.name == na or na in ea.inner):
+                        bad.append(z3.And(ea.g(), eb.g()))
+            return B(z3.Not(z3.Or(*bad)) if bad else z3.BoolVal(True))
         if f == "at_effect":        # at_effect('name', expr): expr evaluated in the state right after the last such effect
             name = a[0].value
             es = [e for e in st.trace if e.name == name and e.st is not None]
-            if not es:
-                return [Res(st, V(fresh_val("noeff"), None))]
-            se = es[-1].st.copy(); se.env = dict(st.env)
-            return [Res(st, self.ev1(se, a[1]))]
-        if f == "parses_int":
-            return B(is_intstr(Val.s(v(a[0]).t)))
+            cur = V(fresh_val("noeff"), None)
+            for e in es:
+                se = e.st.copy(); se.env = dict(st.env)
+                x = self.ev1(se, a[1])
+                cur = V(z3.If(e.g(), x.t, cur.t), x.ty)
+            return [Res(st, cur)]
         if f == "fs_read":          # text obtained by read_text (follows one level of symlink)
             p = Val.p(v(a[0]).t)
             q = z3.If(self.fk(st, p) == 3, self.ftarget(st, p), p)
             return [Res(st, V(StrV(z3.Select(st.field("$fs_text"), q)), "str"))]
-        if f == "effect_result":
+        if f == "effect_result" or f == "effect_arg":
             name = a[0].value
-            es = [e for e in st.trace if e.name == name]
-            if not es or es[-1].res is None:
-                return [Res(st, V(fresh_val("nores"), None))]
-            return [Res(st, es[-1].res)]
+            idx = a[1].value if f == "effect_arg" else None
+            cur = V(fresh_val("nores"), None)
+            for e in st.trace:
+                if e.name != name: continue
+                x = e.res if f == "effect_result" else (e.args[idx] if idx < len(e.args) else None)
+                if x is None: continue
+                cur = V(z3.If(e.g(), x.t, cur.t), x.ty)
+            return [Res(st, cur)]
+        if f == "writes_count":     # number of explicit assignments to the named field on this path
+            name = a[0].value
+            if self.merging:
+                raise Unsupported("writes_count with state merging: use effect counting")
+            return [Res(st, V(IntV(sum(1 for (fl, o) in st.writes if fl == name and z3.is_expr(o) and not isinstance(o, tuple))), "int"))]
+        if f == "bm_self":          # receiver of a bound method value
+            bm = z3.Function("bm_self", Val, Val)
+            return [Res(st, V(bm(v(a[0]).t), None))]
+        if f == "p_joinp":          # p / q for two paths
+            x, y = v(a[0]), v(a[1])
+            return [Res(st, V(Val.PathV(p_joinp(Val.p(x.t), Val.p(y.t))), "Path"))]
+        if f == "parses_int":
+            return B(is_intstr(Val.s(v(a[0]).t)))
         if f in ("effect", "no_effect", "effect_count"):
             name = a[0].value
             if any(name in e.inner for e in st.trace):
                 if f == "no_effect":
-                    return B(z3.BoolVal(False))
+                    return B(z3.Not(z3.Or(*[e.g() for e in st.trace if name in e.inner or e.name == name])))
                 raise Unsupported(f"effect {name} occurs inside a loop: its count is not tracked")
             es = [e for e in st.trace if e.name == name]
-            if f == "effect": return B(z3.BoolVal(len(es) > 0))
-            if f == "no_effect": return B(z3.BoolVal(len(es) == 0))
-            return [Res(st, V(IntV(len(es)), "int"))]
+            if f == "effect": return B(z3.Or(*[e.g() for e in es]) if es else z3.BoolVal(False))
+            if f == "no_effect": return B(z3.Not(z3.Or(*[e.g() for e in es])) if es else z3.BoolVal(True))
+            return [Res(st, V(IntV(z3.Sum(*[z3.If(e.g(), 1, 0) for e in es]) if es else z3.IntVal(0)), "int"))]
         if f == "raised":
             return B(z3.BoolVal(False))
         raise Unsupported(f"spec function {f}")
